@@ -80,6 +80,24 @@ CHECKS = {
         'dict semantics ("last write wins") modelled as an association list; ids are the printed CURIE values (C04).',
         'Lean 4 proof (fold over the binding list) + exhaustive small-scope/random differential correspondence',
         'DESIGN.md §6 C06'),
+    'C07': (
+        'Lean 4 theorems on a small-step model of the store protocol (any number of loaders, every interleaving at I/O-boundary '
+        'granularity, fault choices fail / failAfter n bytes at every boundary, a kill at every point, clear(type)/clear() at any time): '
+        'INVARIANT for every history from an empty store (or any store satisfying it): every file at a cache location holds exactly '
+        'the remote\'s bytes (no incomplete file is ever left or observed); a loader that reaches `loaded` read the remote\'s bytes; '
+        'every fetch event is preceded by that thread\'s own isfile=False for the key (trace invariant); latest = max tag, no tag = '
+        'error; RECOVERY: from any reachable world an undisturbed load from a healthy remote ends in loaded(remote bytes); clear(type) '
+        'removes exactly that type\'s paths, is a no-op when nothing is cached, clear() empties. Tie: (1) all histories of length <= 2 '
+        'and random ones over loads x fault plans x clears x latest on the REAL OntologyStore with fake services, world after every op '
+        'compared with the model (cache bytes, stray entries, fetch log, result), absolute and relative store dirs; (2) every crash '
+        'point of several loads in forked children killed at the j-th I/O boundary: invariant on the surviving tree, healthy reload, '
+        'boundary-kind sequence = model step sequence, cache paths never opened for writing; (3) two real loader threads under a '
+        'baton scheduler: all two-switch schedules + random ones, invariant evaluated at every boundary.',
+        'PARTIAL: POSIX semantics assumed (os.replace atomic, mkstemp names unique, a killed process leaves the prefixes it wrote); '
+        'interleavings finer than I/O boundaries and SIGKILL inside a single write(2) are not exhibited; relative/absolute store dirs '
+        'are exercised by the tie only; GitHub services are replaced by fakes (the store\'s own extension point).',
+        'Lean 4 proof (invariants by induction over arbitrary action lists, recovery by symbolic execution) + history / crash-point / schedule replay on the real store',
+        'DESIGN.md §6 C07'),
     'C08': (
         'Lean 4 theorems on the aggregation layer: one disease per distinct database id (first-seen order), one annotation per '
         'distinct aspect-P phenotype id, name from the first line, aspect-I ids as duplicate-free modes of inheritance; numerator and '
